@@ -372,6 +372,76 @@ def into_sourcemap(ctx, rule):
     ctx.check(ok, rule, fn, "ignore_list", "every element of the builder's ignore list is added to the map", detail=str(ig))
 
 
+def map_new(ctx, rule):
+    """SourceMap::new stores what it is given: every argument reaches its field whole (the contents table entry by
+    entry, each text wrapped in a view), nothing is filtered, truncated or dropped on a side condition."""
+    b = ctx.body("types::SourceMap::new")
+    lit = [b.expr_of_rvalue(s2["rv"]) for bi, si, s2, it in b.locations() if not it and s2["k"] == "assign" and s2["rv"]["k"] == "agg" and s2["rv"].get("adt") == SM_T]
+    if not ctx.check(len(lit) == 1, rule, b.path, "literal", "SourceMap::new builds the map at one place"):
+        return
+    want = {"file": ["arg1"], "tokens": ["arg2"], "names": ["arg3"], "sources": ["arg4"],
+            "sources_content": ["Iterator::collect(Iterator::map(IntoIterator::into_iter(Option::unwrap_or_default(arg5)),\u03bb(Option::map(p1,fn:SourceView::new))))",
+                                "Iterator::collect(Iterator::map(IntoIterator::into_iter(Option::unwrap_or_default(arg5)),\u03bb(Option::map(p1,\u03bb(SourceView::new(p1))))))"]}
+    for fld, alts in want.items():
+        sh = q.shape(lit[0].field(fld))
+        ctx.check(sh in alts, rule, b.path, "stores:%s" % fld, "the %s argument is stored whole" % fld, detail=sh[:200])
+    # the arguments are not re-bound on the way (shadowed by a filtered copy)
+    for l in sorted(b.var_names):
+        if l > b.arg_count and b.var_names[l] in ("sources_content", "sources", "names", "file"):
+            ctx.bad(rule, b.path, "rebound:%s" % b.var_names[l], "the %s argument is not replaced by a derived value before it is stored" % b.var_names[l])
+
+
+def builder_new(ctx, rule):
+    """A new builder records the file name it is given, unfiltered, and starts with empty tables."""
+    import re as _re
+    b = ctx.body(B + "new")
+    lit = [b.expr_of_rvalue(s2["rv"]) for bi, si, s2, it in b.locations() if not it and s2["k"] == "assign" and s2["rv"]["k"] == "agg" and s2["rv"].get("adt") == "builder::SourceMapBuilder"]
+    if not ctx.check(len(lit) == 1, rule, b.path, "literal", "SourceMapBuilder::new builds the builder at one place"):
+        return
+    sh = q.shape(lit[0].field("file"))
+    ok = bool(_re.match(r"^Option::map\(arg1,(fn:(Into::into|From::from)|\u03bb\((from<[^()]*>\(p1\)|Into::into\(p1\)|From::from\(p1\)|p1)\))\)$", sh)) or sh == "arg1"
+    ctx.check(ok, rule, b.path, "file", "the file name is stored as given (also the empty string), only converted", detail=sh)
+    for fld, op in zip(lit[0].fields, lit[0].ops):
+        if fld == "file":
+            continue
+        fs = q.shape(op)
+        ctx.check("arg" not in fs and "var:" not in fs, rule, b.path, "empty:%s" % fld, "every table of a new builder starts empty (field %s)" % fld, detail=fs)
+
+
+def local_contents_only_when_missing(ctx, rule):
+    """load_local_source_contents reads a file only for a source that has no contents yet: embedded contents are
+    never replaced by what happens to be on disk."""
+    p = B + "load_local_source_contents"
+    b = ctx.facts.body(p, required=False)
+    if b is None:
+        ctx.remark("load_local_source_contents is not compiled for this target")
+        return
+    pushes = [(bi, q.shape(b.expr_of_call(t))) for bi, t in q.calls_to(b, "Vec::<T, A>::push") if "u32" in q.shape(q.arg_expr(b, t, 0))]
+    sets = [(bi, q.shape(b.expr_of_call(t))) for bi, t in q.calls_to(b, B + "set_source_contents")]
+    ok = len(sets) == 1 and q.wild("SourceMapBuilder::set_source_contents(arg1,try(Iterator::next(var:IntoIter<(u32, PathBuf)>)).0,*)", sets[0][1])
+    ctx.check(ok, rule, p, "set:from-list", "contents are set exactly for the (id, path) pairs collected before", detail=str(sets)[:300])
+    ok = len(pushes) == 1
+    if ok:
+        m = __import__("re").match(r"^Vec::push\(var:Vec<\(u32, PathBuf\)>,tuple\((.*?),try\(builder::resolve_local_reference\(", pushes[0][1])
+        ok = bool(m) and has_fact(b, pushes[0][0], {}, ("false", "SourceMapBuilder::has_source_contents(arg1,%s)" % m.group(1), None))
+    if not ok and not pushes:
+        # the same as an iterator chain: source_map.iter().filter(|(_, id)| !has_source_contents(id)).filter_map(resolve ..).collect()
+        lists = [sh for l in sorted(b.var_names) for sh, _, _ in q.def_shapes(b, l, {}) if sh.startswith("Iterator::collect(") and "resolve_local_reference" in sh]
+        ok = len(lists) == 1 and q.wild("Iterator::collect(Iterator::filter_map(Iterator::filter(HashMap::iter(arg1.source_map),\u03bb(Not(SourceMapBuilder::has_source_contents(^arg1,p1.1)))),"
+                                        "\u03bb(Option::map(builder::resolve_local_reference(*,p1.0),\u03bb(tuple(^arg2.1,p1))))))", lists[0])
+        pushes = lists
+    ctx.check(ok, rule, p, "collect:only-without-contents", "a source is queued for loading only when has_source_contents(id) is false", detail=str(pushes)[:300])
+
+
+def rewrite_delegates(ctx, rule):
+    """The public rewrite is rewrite_with_mapping on every path (no shortcut that returns the map unrewritten)."""
+    b = ctx.body("types::SourceMap::rewrite")
+    C = "SourceMap::rewrite_with_mapping(arg1,arg2)"
+    rets = sorted(sh for sh, _, _ in q.def_shapes(b, 0, {}))
+    ok = rets in (sorted(["Result::Ok{0:try(%s).0}" % C, "FromResidual::from_residual(break(Try::branch(%s)))" % C]), ["Result::map(%s,\u03bb(p1.0))" % C])
+    ctx.check(ok, rule, b.path, "delegates", "rewrite returns the first component of rewrite_with_mapping (or its error) on every path", detail=str(rets)[:300])
+
+
 def plain_setters(ctx, rule):
     """Setters of the builder and of the map store their argument unconditionally."""
     want = {
